@@ -32,7 +32,7 @@ C08_SurvivorSuffices(r) == (r.scn.retry = "T" /\ \E k \in 1..Len(r.obs.alive) : 
                               => r.obs.outcome # "poolerror"
 C08_Genuine(r) == /\ \A k \in 1..Len(r.obs.ret) : r.obs.ret[k] \in 1..r.scn.n
                   /\ NoDup(r.obs.ret)
-C08_MissingExplained(r) == (r.scn.retry = "F" /\ r.obs.outcome = "ok") =>
+C08_MissingExplained(r) == (r.scn.retry = "F" /\ r.obs.outcome = "ok" /\ r.scn.retres = "T") =>
                               \A x \in (1..r.scn.n) \ Range(r.obs.ret) :
                                  \E k \in 1..Len(r.obs.handed[x]) :
                                     /\ r.obs.handed[x][k] \in Range(r.obs.dead)
